@@ -282,7 +282,7 @@ def generate(rng, tier):
     for name in sorted(DR.DRIVERS):
         drv = DR.DRIVERS[name]
         yield from drv.boundary_cases()
-        n = drv.weight * (60 if not thorough else 1200)
+        n = drv.weight * (250 if not thorough else 6000)
         for _ in range(n):
             cfg = drv.gen_cfg(rng)
             pre = drv.gen_pre(rng, cfg)
